@@ -72,6 +72,15 @@ func installWmHook() {
 	})
 }
 
+// reset forgets what an earlier WaterMark at the same address reported (addresses are reused).
+func (p *wmProgress) reset(w *watermark.WaterMark) {
+	id := fmt.Sprintf("%p", w)
+	p.mu.Lock()
+	delete(p.count, id)
+	delete(p.maxDu, id)
+	p.mu.Unlock()
+}
+
 func (p *wmProgress) get(w *watermark.WaterMark) (int, uint64) {
 	id := fmt.Sprintf("%p", w)
 	p.mu.Lock()
@@ -106,6 +115,7 @@ type WmResult struct {
 func runWm(s WmScenario) ([]WmEvent, WmResult) {
 	res := WmResult{ID: s.ID}
 	w := watermark.New()
+	wmProg.reset(w)
 	defer w.Stop()
 	tr := &wmTrace{}
 	var marks, waits int
@@ -306,6 +316,7 @@ func waitClient(wg *sync.WaitGroup, tr *wmTrace, g int, calls []WmCall, w *water
 // smallest value any waiter observed: every waiter individually must see DoneUntil >= ts.
 func runStampede(id string, n int, ts int) ([]WmEvent, WmResult) {
 	w := watermark.New()
+	wmProg.reset(w)
 	defer w.Stop()
 	res := WmResult{ID: id, Waits: n, Marks: 2}
 	ev := []WmEvent{{Ev: "Inv", G: 1, Kind: "b", Ts: ts}}
